@@ -36,8 +36,8 @@ def Elem.signed : Elem → Bool
   | .c => true | .s => true | .i => true | _ => false
 
 /-- A typed auxiliary value (§4.2.4).  Numbers are mathematical integers, a float is its IEEE-754 single
-precision bit pattern (as an unsigned number), `Z` is a printable string, `H` a string of hex digits;
-both are stored NUL-terminated. -/
+precision bit pattern (as an unsigned number), `Z` is a printable string, `H` a string of hex digits
+(`hex s`: `s` IS the digit text, two digits per byte of the array it denotes); both are stored NUL-terminated. -/
 inductive AuxValue where
   | char (c : Byte)                       -- A
   | num (t : Elem) (v : Int)              -- c C s S i I f
@@ -113,11 +113,14 @@ def Elem.inRange (t : Elem) (v : Int) : Prop :=
   if t.signed then -((256 ^ t.width / 2 : Nat) : Int) ≤ v ∧ v < ((256 ^ t.width / 2 : Nat) : Int)
   else 0 ≤ v ∧ v < ((256 ^ t.width : Nat) : Int)
 
+/-- `[0-9A-F]`: the characters of an `H` value (SAMv1 §1.5: "H  [0-9A-F]+  Byte array in the Hex format") -/
+def isHexDigit (c : Byte) : Bool := (48 ≤ c.toNat && c.toNat ≤ 57) || (65 ≤ c.toNat && c.toNat ≤ 70)
+
 def AuxValue.Valid : AuxValue → Prop
   | .char _ => True
   | .num t v => t.inRange v
   | .str s => 0#8 ∉ s
-  | .hex s => 0#8 ∉ s
+  | .hex s => s.length % 2 = 0 ∧ ∀ c ∈ s, isHexDigit c = true
   | .arr t vs => vs.length < 4294967296 ∧ ∀ v ∈ vs, t.inRange v
 
 structure Alignment.Valid (nrefs : Nat) (a : Alignment) : Prop where
